@@ -124,6 +124,24 @@ def run_case(case):
             except Exception:
                 continue
         m = dict(mech, target=target)
+        # a freshly built object queried row by row FIRST (a box computed for one parameter row must not leak into a later
+        # call on the same object), then with all rows at once
+        if kk > 1:
+            Dfresh = geo.build(case["spec"])
+            Dfresh = Dfresh if target == "interior" else Dfresh.boundary
+            for i in rng.permutation(kk)[:4]:
+                i = int(i)
+                try:
+                    bbi = Dfresh.bounding_box(Pp[i,])
+                except Exception as e:
+                    res["viol"].append(viol("exception", "%s.bounding_box(single row) raised %s in %s on %s: %s" % (type(Dfresh).__name__,
+                                            type(e).__name__, exc_site(e), info["desc"], str(e)[:300]), exc=type(e).__name__, site=exc_site(e),
+                                            call="row_by_row", **m))
+                    break
+                bbi = bbi.detach().double().numpy() if isinstance(bbi, torch.Tensor) else np.asarray(bbi, dtype=float)
+                sel = idx == i
+                if sel.any():
+                    check_box(bbi.reshape(-1), X[sel], np.zeros(int(sel.sum()), int), 1, L, "twin_single_row", res, dict(m, call="row_by_row"), info)
         try:
             bb = Dt.bounding_box(Pp)
         except Exception as e:
